@@ -155,34 +155,56 @@ def nodemaker_cases(ctx, n):
         caps.append((uri.LiteralFileURI(b"lit%d" % i).to_string(), "i"))
     caps.append((b"URI:FUTURE:something", "u"))
     lines, impls, cases = [], [], []
+    # read-only counterpart of each cap (the hint DirectoryNode passes as `readcap`)
+    ro_of = {}
+    for (cap, kind) in caps:
+        try:
+            u = uri.from_string(cap)
+            ro_of[cap] = u.get_readonly().to_string() if hasattr(u, "get_readonly") else None
+        except Exception:
+            ro_of[cap] = None
     for _ in range(n):
         nm = NodeMaker(None, None, None, None, None, {"k": 3, "n": 10}, None, None)
-        seq = [ctx.rng.choice(caps) + (ctx.rng.random() < 0.15,) for _ in range(ctx.rng.randrange(2, 14))]
+        seq = []
+        for _i in range(ctx.rng.randrange(2, 14)):
+            (cap, kind) = ctx.rng.choice(caps)
+            deep = ctx.rng.random() < 0.15
+            # how the cap is handed over: alone as writecap, with its read-only hint (as a parent
+            # directory does), or alone as readcap (what a read-only parent does)
+            form = ctx.rng.choice(["w", "w", "w+r", "r"])
+            seq.append((cap, kind, deep, form))
         ids = {}
         out = []
         keep = []
         toks = []
-        for (cap, kind, deep) in seq:
-            node = nm.create_from_cap(cap, None, deep_immutable=deep)
+        for (cap, kind, deep, form) in seq:
+            ro = ro_of.get(cap)
+            if form == "w+r" and ro:
+                w, r = cap, ro
+            elif form == "r":
+                w, r = None, cap
+            else:
+                w, r = cap, None
+            node = nm.create_from_cap(w, r, deep_immutable=deep)
             keep.append(node)   # keep alive: no weakref collection
             out.append(str(ids.setdefault(id(node), len(ids))))
-            # what the cap parses to under this deep_immutable flag
             k = kind
             if deep and kind == "m":
                 k = "u"          # a mutable cap is Unknown in a deep-immutable context
-            toks.append("%s:%s:%s" % ("I" if deep else "M", cap.decode("ascii").replace(":", "_"), k))
-            # monitor: same mutable cap string, same flag -> same object
+            enc = lambda c: c.decode("ascii").replace(":", "_") if c else "-"
+            toks.append("%s:%s:%s:%s" % ("I" if deep else "M", enc(w), enc(r), k))
         seen = {}
-        for (cap, kind, deep), node in zip(seq, keep):
+        for (cap, kind, deep, form), node in zip(seq, keep):
             if kind == "m" and not deep:
                 if (cap, deep) in seen and seen[(cap, deep)] is not node:
-                    ctx.violation("two create_from_cap calls with the same mutable cap gave different node objects",
-                                  {"seq": [(c.decode(), k, d) for c, k, d in seq]}, "nodemaker-not-memoised")
+                    ctx.violation("two create_from_cap calls with the same mutable cap string gave different node objects "
+                                  "(one of them with the read-cap hint a parent directory passes)",
+                                  {"seq": [(c.decode(), k, d, f) for c, k, d, f in seq]}, "nodemaker-not-memoised")
                 seen.setdefault((cap, deep), node)
         lines.append("nm " + " ".join(toks))
         impls.append(",".join(out))
         cases.append({"seq": toks})
-        ctx.case("nm " + " ".join(toks) if len(set(toks)) < len(toks) else None)
+        ctx.case("nm " + " ".join(toks) if len(set(t.split(":")[1] + t.split(":")[2] for t in toks)) < len(toks) else None)
         ctx.count("nodemaker-seq")
     ctx.compare("NodeMaker.create_from_cap object identity", cases, impls, ctx.model(lines))
 
@@ -312,6 +334,27 @@ def grid_batches(ctx, n):
                 if dn2 is not dn:
                     ctx.violation("create_node_from_uri(same dircap) returned a node with a different underlying mutable node",
                                   case, "nodemaker-not-memoised-dir")
+                # a child directory reached through its parent is the same node as the one made from its cap
+                sub = rt.wait(dn.create_subdirectory("sub"))
+                via_parent = rt.wait(dn.get("sub"))
+                direct = c.create_node_from_uri(sub.get_uri())
+                if via_parent is not direct:
+                    ctx.violation("a node reached through its parent directory and the node made from the same cap string are different objects",
+                                  case, "nodemaker-parent-vs-direct")
+                pds = [via_parent.set_uri("p1", lit, lit), direct.set_uri("d1", lit, lit), via_parent.set_uri("p2", lit, lit)]
+                for d in pds:
+                    try:
+                        rt.wait(d)
+                    except grid.Stuck:
+                        ctx.violation("directory edit never completed", case, "dir-edit-blocked")
+                    except Exception as e:
+                        ctx.violation("concurrent edit through two handles of one cap failed: %s" % type(e).__name__, case,
+                                      "dir-edit-two-handles-failed")
+                got = sorted(rt.wait(direct.list()).keys())
+                if got != ["d1", "p1", "p2"]:
+                    ctx.violation("edits through the parent-derived handle and the direct handle lost a change",
+                                  dict(case, got=got), "dir-edit-lost-two-handles")
+                names = names + ["sub"]
                 extra = "via-second-handle"
                 dds.append(dn2.set_uri(extra, lit, lit))
                 for d in dds:
